@@ -1,6 +1,6 @@
 (* C07 - compartmented models keep a partition and follow their transition diagram.
    Statements only; proofs in Proofs/CompartRun.v (runs as sequences of calls), CompartSort.v,
-   CompartInv.v (the run invariant), CompartDiagram.v, CompartModels.v.
+   CompartInv.v (the run invariant), CompartDiagram.v, CompartFixed.v (posted removals), CompartModels.v.
 
    Everything is for every table [cm : cmodel] with [wf_model cm = true], every network
    (graph_okb: edges join nodes of the network), every initial assignment (init_ok: it gives every
@@ -18,7 +18,7 @@
 From Coq Require Import List ZArith QArith Bool Arith.
 From EpyV Require Import Model.Kernel Model.Loci Model.Compart
   Proofs.KernelMember Proofs.LociBase Proofs.LociLocus Proofs.LociInv
-  Proofs.CompartRun Proofs.CompartSort Proofs.CompartInv Proofs.CompartDiagram Proofs.CompartModels.
+  Proofs.CompartRun Proofs.CompartSort Proofs.CompartInv Proofs.CompartDiagram Proofs.CompartFixed Proofs.CompartModels.
 Import ListNotations.
 
 (* ---------------------------------------------------------------- runs are sequences of calls *)
@@ -88,7 +88,7 @@ Proof. reflexivity. Qed.
 (* ---------------------------------------------------------------- C07_diagram *)
 (* every compartment change made by an event function entered from the scheduler (a stochastic or
    per-element event) is an arrow l -> c of the diagram; no other node changes.  (Posted event
-   functions: see C07_fixed_recovery_partial below.) *)
+   functions: C07_diagram_posted below.) *)
 Theorem C07_diagram : forall cm nodes edges init maxtime monitor rs ls ds cs s s1 x t e,
   let tb := mk_table cm nodes edges init maxtime monitor in
   wf_model cm = true -> graph_okb nodes edges = true -> init_ok cm nodes init = true ->
@@ -146,17 +146,10 @@ Theorem C07_event_of_call : forall cm nodes edges init maxtime monitor pi j ev,
 Proof. intros. apply all_events_mk. Qed.
 
 (* ---------------------------------------------------------------- C07_fixed_recovery *)
-(* FULL STATEMENT (not proved): in a fixed-recovery table a node leaves the infected compartment
-   exactly T after entering it, and only then.
-   PROVED: the infection event function entered at time t on (n, m) posts, with T >= 0, a fresh
-   live one-shot entry for node n with the (node) removal program k due at Qred (t + T), and
-   records OPosted id (t + T); by C04 (Properties/C04.v: C04_posted_fate_stoch/_sync,
-   C04_never_twice, C04_handler_args) an entry so recorded is fired exactly once, at its time,
-   unless the run ends first - no shipped event function un-posts.  What is missing for the full
-   statement is the queue invariant "a pending removal for n <-> n is infected", i.e. that the
-   posted removal finds n still in I; C07_diagram therefore covers the scheduler-drawn events and
-   the posted I -> R / I -> S arrows of [diagram] are justified by the co-executed runs only. *)
-Theorem C07_fixed_recovery_partial : forall cm nodes edges init maxtime monitor rs ls ds cs s s1 t e j cev c mark T k n m,
+(* the infection event function entered at time t on (n, m) posts, with T >= 0, a fresh live one-shot
+   entry for node n with the (node) removal program k due at Qred (t + T), and records
+   OPosted id (t + T) (so C04 applies to it: Properties/C04.v, C04_posted_fate_stoch/_sync) *)
+Theorem C07_fixed_recovery_posts : forall cm nodes edges init maxtime monitor rs ls ds cs s s1 t e j cev c mark T k n m,
   let tb := mk_table cm nodes edges init maxtime monitor in
   wf_model cm = true -> graph_okb nodes edges = true -> init_ok cm nodes init = true ->
   Steps tb (setup_state tb rs ls ds) cs s -> In (s1, CEv (mpi monitor, j, mk_ev j cev) t e) cs ->
@@ -172,6 +165,79 @@ Proof.
   exact (fixed_recovery_posts cm nodes edges init maxtime monitor s1 _ t e Hwf
            (proj1 (Forall_forall _ _) Hall _ Hin) (proj1 (Steps_calls tb _ _ _ H _ Hin)) j cev c mark T k n m eq_refl En Ek Ee).
 Qed.
+
+(* [fixed_ok cm]: no stochastic event moves a node out of a compartment from which a posted event
+   function takes it (trivially true when nothing is posted).  For such tables and networks whose
+   node list has no repetition the run invariant extends to the queue (G = J, posted entries sit on
+   nodes, ids are distinct, FQ: a pending posted node program HNode c' for node n => it is one-shot
+   and n is in some l with l -> c' a posted arrow of the diagram, FU: at most one such entry per node) *)
+Theorem C07_fixed_invariant : forall cm nodes edges init maxtime monitor rs ls ds cs s,
+  let tb := mk_table cm nodes edges init maxtime monitor in
+  wf_model cm = true -> fixed_ok cm = true -> graph_okb nodes edges = true -> init_ok cm nodes init = true -> NoDup nodes ->
+  Steps tb (setup_state tb rs ls ds) cs s ->
+  G cm nodes edges s /\ Forall (fun sc => G cm nodes edges (fst sc)) cs.
+Proof. intros cm nodes edges init maxtime monitor rs ls ds cs s tb. exact (G_steps cm nodes edges init maxtime monitor rs ls ds cs s). Qed.
+
+(* C07_diagram for posted event functions: when one fires it moves exactly its own node, along a
+   posted arrow of the diagram (I -> R, I -> S for the fixed-recovery variants) *)
+Theorem C07_diagram_posted : forall cm nodes edges init maxtime monitor rs ls ds cs s s1 h,
+  let tb := mk_table cm nodes edges init maxtime monitor in
+  wf_model cm = true -> fixed_ok cm = true -> graph_okb nodes edges = true -> init_ok cm nodes init = true -> NoDup nodes ->
+  Steps tb (setup_state tb rs ls ds) cs s -> In (s1, CPost h) cs ->
+  forall v, getc (cw_st (world (after tb (CPost h) s1))) v <> getc (cw_st (world s1)) v ->
+  exists l c, getc (cw_st (world s1)) v = Some l /\ getc (cw_st (world (after tb (CPost h) s1))) v = Some c
+    /\ In (l, c) (posted_arrows cm) /\ In (l, c) (diagram cm) /\ e_elem h = EN v /\ pnode cm (e_prog h) c.
+Proof.
+  intros cm nodes edges init maxtime monitor rs ls ds cs s s1 h tb Hwf Hfx Hg Hi Hnd H Hin.
+  destruct (G_steps cm nodes edges init maxtime monitor rs ls ds cs s Hwf Hfx Hg Hi Hnd H) as [_ Hall].
+  exact (posted_diagram cm nodes edges init maxtime monitor s1 h (proj1 (Forall_forall _ _) Hall _ Hin) (proj1 (Steps_calls tb _ _ _ H _ Hin))).
+Qed.
+
+(* a node in such a compartment (I of the fixed-recovery variants) is left alone by every
+   stochastic event: only its posted removal takes it out *)
+Theorem C07_fixed_recovery_only_exit : forall cm nodes edges init maxtime monitor rs ls ds cs s s1 x t e,
+  let tb := mk_table cm nodes edges init maxtime monitor in
+  wf_model cm = true -> fixed_ok cm = true -> graph_okb nodes edges = true -> init_ok cm nodes init = true ->
+  Steps tb (setup_state tb rs ls ds) cs s -> In (s1, CEv x t e) cs ->
+  forall v l, getc (cw_st (world s1)) v = Some l -> (exists c', In (l, c') (posted_arrows cm)) ->
+  getc (cw_st (world (after tb (CEv x t e) s1))) v = Some l.
+Proof.
+  intros cm nodes edges init maxtime monitor rs ls ds cs s s1 x t e tb Hwf Hfx Hg Hi H Hin.
+  destruct (C07_invariant cm nodes edges init maxtime monitor rs ls ds cs s Hwf Hg Hi H) as [_ Hall].
+  exact (stochastic_spares_sources cm nodes edges init maxtime monitor s1 x t e Hwf Hfx
+           (proj1 (Forall_forall _ _) Hall _ Hin) (proj1 (Steps_calls tb _ _ _ H _ Hin))).
+Qed.
+
+(* the whole clause: a node infected at time t (entry y posted) - at every later point of the run,
+   either y is still pending and the node has not left the infected compartment(s), or y was fired
+   by exactly one later call, a posted call whose handler time is Qred (t + T), and that call moved
+   the node (and nothing else) along a posted arrow.  (That a pending entry IS fired when the clock
+   passes its time, unless the run ends first, is C04.) *)
+Theorem C07_fixed_recovery : forall cm nodes edges init maxtime monitor rs ls ds cs s cs1 s1 j cev t n m cs2 c mark T k,
+  let tb := mk_table cm nodes edges init maxtime monitor in
+  wf_model cm = true -> fixed_ok cm = true -> graph_okb nodes edges = true -> init_ok cm nodes init = true -> NoDup nodes ->
+  Steps tb (setup_state tb rs ls ds) cs s ->
+  cs = cs1 ++ (s1, CEv (mpi monitor, j, mk_ev j cev) t (EE n m)) :: cs2 ->
+  nth_error (cm_events cm) j = Some cev -> ce_kind cev = HLeft c mark (Some (T, k)) ->
+  let y := {| e_time := Qred (t + T); e_id := nextid s1; e_live := true; e_proc := mpi monitor;
+              e_elem := EN n; e_prog := k; e_rep := None |} in
+  (In y (queue s) /\ forall c', pnode cm k c' -> exists l, getc (cw_st (world s)) n = Some l /\ In (l, c') (posted_arrows cm))
+  \/ (exists s2, In (s2, CPost y) cs2 /\ call_time (CPost y) = Qred (t + T)
+        /\ (forall s3 h3, In (s3, CPost h3) cs2 -> e_id h3 = e_id y -> s3 = s2 /\ h3 = y)
+        /\ forall v, getc (cw_st (world (after tb (CPost y) s2))) v <> getc (cw_st (world s2)) v ->
+              v = n /\ exists l c', getc (cw_st (world s2)) n = Some l /\ getc (cw_st (world (after tb (CPost y) s2))) n = Some c'
+                /\ In (l, c') (posted_arrows cm) /\ pnode cm k c').
+Proof.
+  intros cm nodes edges init maxtime monitor rs ls ds cs s cs1 s1 j cev t n m cs2 c mark T k tb.
+  exact (fixed_recovery_fate cm nodes edges init maxtime monitor rs ls ds cs s cs1 s1 j cev t n m cs2 c mark T k).
+Qed.
+
+Example C07_fixed_ok_tables : forall p q r u,
+  fixed_ok (sir_fr_cm p q) = true /\ fixed_ok (sis_fr_cm p q) = true /\ fixed_ok (sir_cm p q) = true
+  /\ fixed_ok (sis_cm p q) = true /\ fixed_ok (sirs_cm p q r) = true /\ fixed_ok (seir_cm p q r u) = true
+  /\ fixed_ok (opinion_cm p q) = true
+  /\ posted_arrows (sir_fr_cm p q) = [(1, 2); (1, 2)]%Z /\ posted_arrows (sis_fr_cm p q) = [(1, 2); (1, 2)]%Z.
+Proof. intros. repeat split; vm_compute; reflexivity. Qed.
 
 (* ---------------------------------------------------------------- C07_quiescent *)
 (* the Gillespie loop leaves through the branch a = 0 with nothing pending ... *)
